@@ -39,6 +39,7 @@ func hC08Seg() {
 	// segmentation profile: thorough crosses every dimension, quick picks from six combined profiles
 	var chunk, bufSize, mode, splitAt int
 	var eofWithData bool
+	emptyReadAt := 0
 	if verifTier() == 1 {
 		// thorough: every combination of the dimensions that act on the varied side
 		chunk, bufSize, mode = 4096, 16, wmFrame
@@ -46,6 +47,7 @@ func hC08Seg() {
 			chunk = verifChoose("chunk", 3) + 1
 			bufSize = []int{1, 2, 3, 5}[verifChoose("bufsize", 4)]
 			eofWithData = verifChoose("eofWithData", 2) == 1
+			emptyReadAt = []int{0, 1, 2, 4, 7}[verifChoose("emptyReadAt", 5)] // 0 = never
 		} else {
 			mode = verifChoose("writeMode", 5)
 			if mode == wmSplit {
@@ -53,7 +55,11 @@ func hC08Seg() {
 			}
 		}
 	} else {
-		switch verifChoose("profile", 6) {
+		switch verifChoose("profile", 8) {
+		case 6: // a client body delivered byte by byte whose second Read returns (0, nil): inside the body of a client without envelopes
+			chunk, bufSize, mode, emptyReadAt = 1, 16, wmFrame, 2
+		case 7: // ... whose seventh Read does: inside the payload of an enveloped client's first message
+			chunk, bufSize, mode, emptyReadAt = 1, 3, wmFrame, 7
 		case 0:
 			chunk, bufSize, mode = 1, 1, wmBytes
 		case 1:
@@ -89,6 +95,7 @@ func hC08Seg() {
 	seg.backend.bufSize = bufSize
 	seg.body.chunk = chunk
 	seg.body.eofWithData = eofWithData
+	seg.body.emptyReadAt = emptyReadAt
 	seg.serve(reqMsgs)
 
 	verifObsBytes("ref-backend-body", ref.backend.rec.body)
